@@ -701,29 +701,40 @@ func (s resolverSuite) e2eStep(c rCase, enc []string) []Step {
 	}
 	sort.Strings(w)
 	c.World = w
-	res, err := resolverE2E(c)
+	res, r2, err := resolverE2E(c, true, len(c.World)%2 == 0)
 	if err != nil {
 		return []Step{{Line: "x.robust\te2e", Go: "setup-error: " + err.Error(), Mode: "oracle-go", GoSpec: "pass", NoImpl: true, Trivial: true, Desc: "multi-arch e2e setup failed", Tags: []string{"e2e:setup-error"}}}
 	}
 	// BuildPackageLists fails as a whole when one architecture fails: compare only when the model says all succeed
 	// or Go succeeded (then every architecture must match)
 	var steps []Step
-	allOK := true
-	for i := range c.Archs {
-		if res[i] == "err" {
-			allOK = false
+	round := func(fam []rArch, enc []string, res map[int]string, wholeCall bool, how, tag string) {
+		allOK := true
+		for i := range fam {
+			if res[i] == "err" {
+				allOK = false
+			}
+		}
+		for self := range fam {
+			out := res[self]
+			op := "r.avail"
+			if !allOK && wholeCall {
+				op = "r.corr-any-err" // Go reported an error for the whole call: accepted iff the model errors for SOME architecture
+			}
+			fields := append([]string{op, xl(c.World), xs(fam[self].Arch)}, enc...)
+			fields = append(fields, out)
+			steps = append(steps, Step{Line: strings.Join(fields, "\t"), Go: out, Mode: "verdict", Trivial: out == "err",
+				Desc: how + ": " + describeCase(rCase{Archs: fam, World: c.World}, self), Tags: []string{tag + strings.SplitN(out, " ", 2)[0]}})
 		}
 	}
-	for self := range c.Archs {
-		out := res[self]
-		op := "r.avail"
-		if !allOK {
-			op = "r.corr-any-err" // Go reported an error for the whole call: accepted iff the model errors for SOME architecture
+	round(c.Archs, enc, res, true, "MultiArch.BuildPackageLists", "e2e:")
+	if r2 != nil {
+		// the second round is judged against the family AS PUBLISHED THEN (history-free: Lemmas/GlueRounds.lean)
+		tag := "e2e-history-goroutines:"
+		if r2.Seq {
+			tag = "e2e-history-arch-after-arch:"
 		}
-		fields := append([]string{op, xl(c.World), xs(c.Archs[self].Arch)}, enc...)
-		fields = append(fields, out)
-		steps = append(steps, Step{Line: strings.Join(fields, "\t"), Go: out, Mode: "verdict", Trivial: out == "err",
-			Desc: "MultiArch.BuildPackageLists: " + describeCase(c, self), Tags: []string{"e2e:" + strings.SplitN(out, " ", 2)[0]}})
+		round(r2.Archs, encodeArchs(r2.Archs), r2.Out, !r2.Seq, "HISTORY, "+r2.How, tag)
 	}
 	return steps
 }
